@@ -793,8 +793,9 @@ def write_evidence(pid, tier, seed, mod, res, violations, wall, cases, known=(),
         s = canon_json({'op': c.get('op'), 'input': c.get('input')})
         samples.append(json.loads(s) if len(s) < 1500 else {'op': c.get('op'), 'input_truncated': s[:1500]})
     thms = proof.get('theorems', [])
-    for t in thms[:40]:
+    for t in thms[:8]:
         samples.append({'theorem': t, 'assumptions': proof.get('assumptions', {}).get(t, [])})
+    axioms_used = sorted(set(a for t in thms for a in proof.get('assumptions', {}).get(t, [])))
     cov = {
         'obligations': int(proof.get('obligations', 0)),
         'discharged': int(proof.get('discharged', 0)),
@@ -813,6 +814,10 @@ def write_evidence(pid, tier, seed, mod, res, violations, wall, cases, known=(),
         'rule': getattr(mod, 'RULE', 'seeded structured generator; a case is non-trivial when the property module\'s nontrivial() accepts it; distinct by hash of the canonical input'),
         'samples': samples,
         'theorems': thms,
+        'axioms_used': axioms_used,
+        'theorems_closed_under_global_context': sum(1 for t in thms if not proof.get('assumptions', {}).get(t, ['?'])),
+        'assumptions_by_theorem': {t: proof.get('assumptions', {}).get(t, []) for t in thms
+                                   if proof.get('assumptions', {}).get(t)},
         'ops': res.get('ops', {}),
         'correspondence_divergences': divergences,
         'property_failures_new': failures,
@@ -836,8 +841,11 @@ def write_evidence(pid, tier, seed, mod, res, violations, wall, cases, known=(),
         'assumptions': list(getattr(mod, 'ASSUMPTIONS', [])) if mod else [],
         'wall_s': round(wall, 2), 'violations': int(violations),
     }
-    os.makedirs(os.path.join(ROOT, 'evidence'), exist_ok=True)
-    with open(os.path.join(ROOT, 'evidence', '%s.json' % pid), 'w') as f:
+    # evidence/ holds only runs against /repo itself; developer runs against a scratch worktree (VERIF_REPO)
+    # are written under build/
+    evdir = os.path.join(ROOT, 'evidence') if REPO == '/repo' else os.path.join(BUILD, 'evidence-dev')
+    os.makedirs(evdir, exist_ok=True)
+    with open(os.path.join(evdir, '%s.json' % pid), 'w') as f:
         json.dump(ev, f, indent=1, sort_keys=True, default=str)
 
 
